@@ -2,7 +2,7 @@
 import os
 import random
 
-from vlib import graphwalk, model, tlc, tracecheck
+from vlib import graphwalk, model, par, tlc, tracecheck
 from vlib.graphwalk import Unexpected, Skip
 from adapters import linefiles as lf
 from adapters.C06 import split_failed
@@ -89,13 +89,15 @@ def run(ctx):
     gc, _ = graphwalk.emit_graph(SPEC, model.cfg_text(content, view="View", action_constraint="Emit"), ctx, "LineFile_content")
     gi, _ = graphwalk.emit_graph(SPEC, model.cfg_text(inter, view="View", action_constraint="Emit"), ctx, "LineFile_interleave")
     vs = lf.variants(f)
+    jobs = []
     for name, spec in vs.items():
         ad = lf.LineFileAdapter(name, spec)
-        st = graphwalk.walk(gc, ad, ctx, "LineFile_content/" + name, sig_fn=lambda *a, n=name: {"variant": n}, op_timeout=10.0)
-        ctx.note("walk %s" % st)
-        if quick and name not in ("RandomLineAccessFile", "MemoryMappedRandomLineAccessFile", "MutableRecordFile"):
+        jobs.append((gc, ad, "LineFile_content/" + name, dict(sig_fn=lambda *a, n=name: {"variant": n}, op_timeout=10.0)))
+        if quick and name not in ("RandomLineAccessFile", "MemoryMappedRandomLineAccessFile", "MutableRecordFile",
+                                  "MutableMemoryMappedRandomLineAccessFile"):
             continue
-        st = graphwalk.walk(gi, ad, ctx, "LineFile_interleave/" + name, sig_fn=lambda *a, n=name: {"variant": n}, op_timeout=10.0)
+        jobs.append((gi, ad, "LineFile_interleave/" + name, dict(sig_fn=lambda *a, n=name: {"variant": n}, op_timeout=10.0)))
+    for st in par.walks(ctx, jobs):
         ctx.note("walk %s" % st)
     ctx.exhaustive = True
     rnd = random.Random(ctx.seed * 7919 + 11)
